@@ -371,4 +371,5 @@ def build():
                         f"result == mk_seq(with_tail(seqm_matchers(visit_result({C1}, old(SEEN))), seqm_tail(visit_result({C1}, old(SEEN)))), pn_text(pn_children({C2})[0])))"],
                note="a bare field: the unnamed any-matcher; a field with only a capture: the named any-matcher; otherwise the compiled value / sequence, named when a capture follows "
                     "(a sequence with a trailing '*' is rebuilt with the tail put back, so the copy keeps it)"))
+    world.trusted_notes.append("the shape of lark's parse trees (first child of a tree production is a class_spec tree, the rest are field_spec trees, ...) is assumed at every depth: the recursive summary tree#callee does not re-require it for nested trees")
     return world, lib, reg, []
